@@ -23,23 +23,23 @@ ASSUMPTIONS = [
 
 def cases(tier):
     out = []
-    reps = 3 if tier == "quick" else 40
+    reps = 3 if tier == "quick" else 300
     for n in (2, 3, 4):
         for perm in itertools.permutations(range(n)):
             for r in range(reps if n < 4 else max(1, reps // 2)):
                 out.append(("mat", n, perm, r))
                 out.append(("vec", n, perm, r))
-    nrand = 40 if tier == "quick" else 1500
+    nrand = 40 if tier == "quick" else 12000
     for r in range(nrand):
         out.append(("mat", 5 if (tier == "quick" or r % 3) else 6, None, r))
         out.append(("vec", 5 if (tier == "quick" or r % 3) else 6, None, r))
-    for r in range(60 if tier == "quick" else 2500):
+    for r in range(60 if tier == "quick" else 20000):
         out.append(("swap", r))
-    for r in range(40 if tier == "quick" else 1500):
+    for r in range(40 if tier == "quick" else 12000):
         out.append(("permop", r))
-    for r in range(30 if tier == "quick" else 800):
+    for r in range(30 if tier == "quick" else 6000):
         out.append(("sparse", r))
-    for r in range(30 if tier == "quick" else 600):
+    for r in range(30 if tier == "quick" else 4000):
         out.append(("internal", r))
     for d, n in ((4, 3), (5, 3), (6, 3), (3, 4), (7, 3), (2, 6), (3, 5), (10, 3)):
         out.append(("nodim", d, n))
